@@ -54,4 +54,35 @@ theorem C11_untracked_is_source (m : Metric) (e : Entry) (d : Bool) :
     gmG false m e d tsErrorGuard = false := by
   unfold gmG setMinGuard setMaxGuard setLatestGuard tsErrorGuard; simp
 
+/-- what one iteration does to one record of the map, written with the generated guards -/
+def stepOneGen (e : Entry) (d : Bool) (m : Metric) : Option Metric :=
+  if m.name = e.metric then updMetricGen m e d else some m
+
+/-- the loop over the metric logs written with the generated guards: the timestamp error of any entry ends it -/
+def runGen (d : Bool) : List Metric → List Entry → Option (List Metric)
+  | ms, [] => some ms
+  | ms, e :: es =>
+    match optMap (stepOneGen e d) ms with
+    | some ms' => runGen d ms' es
+    | none => none
+
+theorem stepOne_eq_gen (e : Entry) (d : Bool) : stepOne e = stepOneGen e d := by
+  funext m; unfold stepOne stepOneGen; rw [C11_iteration_is_source m e d]
+
+/-- **C11_loop_is_source**: for every list of metric logs (any length, any order, any mix of tracked and other metrics) and
+    every set of records, the model's loop is the iteration of the step that decides under the regenerated path conditions -/
+theorem C11_loop_is_source (d : Bool) (ms : List Metric) (es : List Entry) : run ms es = runGen d ms es := by
+  induction es generalizing ms with
+  | nil => simp [run, runGen]
+  | cons e es ih =>
+    simp only [run, runGen, stepEntry, stepOne_eq_gen e d]
+    cases optMap (stepOneGen e d) ms with
+    | none => rfl
+    | some ms' => exact ih ms'
+
+/-- **C11_getMetrics_is_source**: `getMetrics` as a whole, from the records of the objective and additional metric names -/
+theorem C11_getMetrics_is_source (d : Bool) (es : List Entry) (strategies : List String) :
+    getMetrics es strategies = runGen d (initMetrics strategies) es := by
+  unfold getMetrics; exact C11_loop_is_source d _ es
+
 end Katib.Gen
